@@ -29,6 +29,11 @@ register('C06', 'complete enumeration of marked subsets on small meshes + Hypoth
          'indicator recipes; outcome must equal the model closure for some admissible bulk set.',
          'reference model closure; Fractions on the double inputs; ties at the cut accept any admissible prefix', 'DESIGN.md 3/C06')
 
+register('C18', 'Hypothesis-generated curves (shipped + rectilinear polygons/polylines), grids and histories against independent vertex-list geometry',
+         'Arc length, side lengths, continuity, closure, eval == piece value (scalar and vector, at and +-1 ulp around break points), piece identity/containment of every '
+         'element of the tree, >= 3 elements around closed curves for every time grid, <= 1 common end point.',
+         'vlib/geo.py vertex lists; integer/dyadic rectilinear vertex chains are required to be accepted by the constructor', 'DESIGN.md 3/C18')
+
 NOT_YET = {}
 def main():
     props = [json.loads(l)['id'] for l in open(os.path.join(V, 'properties.jsonl'))]
